@@ -277,3 +277,34 @@ Theorem C15_cells_inside_empty_polygon : forall {T} (N : NumOps T) ad nrows ncol
   cells_inside_polygon N ad nrows ncols xll yll csz [] atol = None.
 Proof. exact @cells_inside_empty_polygon. Qed.
 Print Assumptions C15_cells_inside_empty_polygon.
+
+(* ================================================================== *)
+(* The same property on the REGENERATED program: [program] is the MiniC  *)
+(* translation of the C kernel produced from the tree under test on      *)
+(* every run (Gen/KernelsAst.v); [exec_fun] its interpreter (MiniC.v).   *)
+(* ================================================================== *)
+From Coq Require Import String Lia.
+From Hy Require Import Base.MiniC Gen.KernelsAst Proofs.RefinePolygon.
+Open Scope string_scope.
+Open Scope list_scope.
+Open Scope Z_scope.
+
+(* c_inside = the model, any arithmetic instance (binary64 included), any nprint, any
+   tolerance, bounding box, points and polygon with at least one vertex (the wrapper's
+   min()/max() raise on an empty polygon), any initial content of the output *)
+Theorem C15_kernel_inside_refines_model :
+  forall {T} (N : NumOps T) (X : NumLit T) nprint (pts poly : list (T * T))
+         (atol xl0 xl1 yl0 yl1 : T) ins n,
+  List.length ins = List.length pts -> poly <> [] ->
+  (List.length pts < n)%nat -> (List.length poly < n)%nat ->
+  exec_fun N X program (S n) "c_inside"
+    [AVI nprint; AVI (MiniC.zlen pts); AVArrF (flat pts); AVI (MiniC.zlen poly); AVArrF (flat poly);
+     AVF atol; AVArrF [xl0; xl1]; AVArrF [yl0; yl1]; AVArrI ins]
+  = Ok (RI 0, [VArrF (flat pts); VArrF (flat poly); VArrF [xl0; xl1]; VArrF [yl0; yl1];
+               VArrI (c_inside N atol (xl0, xl1) (yl0, yl1) poly pts ins)]).
+Proof. exact @refine_c_inside_wrapper. Qed.
+Print Assumptions C15_kernel_inside_refines_model.
+
+(* [flat] is the row-major (n, 2) buffer *)
+Example C15_kernel_flat : flat [(1, 2); (3, 4)] = [1; 2; 3; 4].
+Proof. reflexivity. Qed.
